@@ -2,6 +2,7 @@ import Exetera.Lemmas.JoinGeneralFinal
 import Exetera.Lemmas.JoinInnerSpec
 import Exetera.Lemmas.JoinBUFinal
 import Exetera.Lemmas.JoinRUFinal
+import Exetera.Lemmas.JoinLUFinal
 /-!
 # C03 — streaming join maps equal the relational join for every chunk size
 
@@ -82,6 +83,20 @@ theorem inner_right_unique_streamed_eq {L R : List Int} {cs : Nat} (inv : Int) (
     ∃ calls, streamed .innerRU fuel cs inv L R =
       .ok ⟨(encodeInner (innerJoin L R)).1, (encodeInner (innerJoin L R)).2, calls⟩ :=
   Join.RU.inner_right_unique_streamed_eq (inv := inv) hcs hL hR fuel hfuel
+
+/-- `…_left_left_unique_streamed`: the right column may contain runs of equal keys (longer than a chunk too). -/
+theorem left_left_unique_streamed_eq {L R : List Int} {cs : Nat} (inv : Int) (hcs : 0 < cs)
+    (hL : L.Pairwise (· < ·)) (hR : Sorted R) (fuel : Nat) (hfuel : L.length + R.length ≤ fuel) :
+    ∃ calls, streamed .leftLU fuel cs inv L R =
+      .ok ⟨(encodeLeft inv (leftJoin L R)).1, (encodeLeft inv (leftJoin L R)).2, calls⟩ :=
+  Join.leftLU_streamed_eq inv hcs hL hR fuel hfuel
+
+/-- `…_inner_left_unique_streamed` -/
+theorem inner_left_unique_streamed_eq {L R : List Int} {cs : Nat} (inv : Int) (hcs : 0 < cs)
+    (hL : L.Pairwise (· < ·)) (hR : Sorted R) (fuel : Nat) (hfuel : L.length + R.length ≤ fuel) :
+    ∃ calls, streamed .innerLU fuel cs inv L R =
+      .ok ⟨(encodeInner (innerJoin L R)).1, (encodeInner (innerJoin L R)).2, calls⟩ :=
+  Join.innerLU_streamed_eq inv hcs hL hR fuel hfuel
 
 /-- Every window handed to a kernel is a non-empty slice at the right offset ending at a run boundary — for every
     chunk size ≥ 1 (this is what the widening loop of `get_next_chunk` is for). -/
